@@ -131,26 +131,29 @@ CtorBytes(kind, sid, sys, code) ==
      [] kind = "deselect.req" -> DeselectReq(sid, sys) [] kind = "deselect.rsp" -> DeselectRsp(DeselectReq(sid, sys), code)
      [] kind = "linktest.req" -> LinktestReq(sys) [] kind = "linktest.rsp" -> LinktestRsp(LinktestReq(sys))
      [] kind = "separate.req" -> SeparateReq(sid, sys) [] kind = "reject.req" -> RejectReq(sid, 0, 9, sys, code)
-PropC14(e) ==
-  \* TLC -> Go: every constructor call of the case table gives the bytes and the type the specification demands
-  /\ e.ev = "ctrlcase" => \A k \in CtorKeys : e.real[k].bytes = e.want[k] /\ e.real[k].type = KindOfKey(k)
-  \* Type() over all (PType, SType) pairs
-  /\ e.ev = "typeivl" => \A key \in e.a..e.b : TypeMatches(e.type, key \div 256, key % 256)
-  \* every session id: the two session-id bytes follow the argument, nothing else depends on it
-  /\ e.ev = "sidivl" => /\ e.sidok /\ e.a = 0 /\ e.b = 65535
-                         /\ e.rest = Wire(CtorBytes(e.kind, IF e.kind \in {"linktest.req", "linktest.rsp"} THEN 65535 ELSE 0, e.sys, e.code))
-  \* responses answer only their own kind of request, and echo it
-  /\ e.ev = "pairing" => /\ e.refused = (e.reqtype # RequestKindFor(e.rsp))
-                          /\ ~e.refused => LET rq == SubSeq(e.req, 5, 14) IN
-                                /\ e.type = e.rsp
-                                /\ e.bytes = Wire(CASE e.rsp = "select.rsp" -> SelectRsp(rq, e.status)
-                                                   [] e.rsp = "deselect.rsp" -> DeselectRsp(rq, e.status)
-                                                   [] e.rsp = "linktest.rsp" -> LinktestRsp(rq))
-  \* any header: bytes, type, decode (equal message iff the SType is defined), no aliasing
-  /\ e.ev = "ctrlraw" => /\ e.bytes = Wire(e.hdr) /\ e.again = e.bytes
-                          /\ TypeMatches(e.type, e.hdr[5], e.hdr[6])
-                          /\ e.ok = (TypeOf(e.hdr[5], e.hdr[6]) \in Kinds) /\ e.pok = e.ok
-                          /\ e.ok => (e.msg2.kind = "ctrl" /\ e.msg2.hdr = e.hdr /\ e.type2 = e.type /\ e.same2)
+\* TLC -> Go: every constructor call of the case table gives the bytes and the type the specification demands
+C14Case(e) == e.ev = "ctrlcase" => (\A k \in CtorKeys : e.real[k].bytes = e.want[k] /\ e.real[k].type = KindOfKey(k))
+\* Type() over all (PType, SType) pairs
+C14Type(e) == e.ev = "typeivl" => (\A key \in e.a..e.b : TypeMatches(e.type, key \div 256, key % 256))
+\* every session id: the two session-id bytes follow the argument, nothing else depends on it
+C14Sid(e) == e.ev = "sidivl" =>
+   (e.sidok /\ e.a = 0 /\ e.b = 65535
+    /\ e.rest = Wire(CtorBytes(e.kind, IF e.kind \in {"linktest.req", "linktest.rsp"} THEN 65535 ELSE 0, e.sys, e.code)))
+\* responses answer only their own kind of request, and echo it
+RspBytes(rsp, rq, status) == Wire(CASE rsp = "select.rsp" -> SelectRsp(rq, status)
+                                    [] rsp = "deselect.rsp" -> DeselectRsp(rq, status)
+                                    [] rsp = "linktest.rsp" -> LinktestRsp(rq))
+C14Pairing(e) == e.ev = "pairing" =>
+   (e.refused = (e.reqtype # RequestKindFor(e.rsp))
+    /\ (e.refused \/ (e.type = e.rsp /\ e.bytes = RspBytes(e.rsp, SubSeq(e.req, 5, 14), e.status))))
+\* any header: bytes, type, decode (equal message iff the SType is defined), no aliasing
+C14Raw(e) == e.ev = "ctrlraw" =>
+   (e.bytes = Wire(e.hdr) /\ e.again = e.bytes
+    /\ TypeMatches(e.type, e.hdr[5], e.hdr[6])
+    /\ e.ok = DecMsg(e.bytes).ok /\ e.pok = e.ok            \* (SType 0 with PType 0 is a header-only data message)
+    /\ (TypeOf(e.hdr[5], e.hdr[6]) \notin Kinds
+        \/ (e.ok /\ e.msg2.kind = "ctrl" /\ e.msg2.hdr = e.hdr /\ e.type2 = e.type /\ e.same2)))
+PropC14(e) == C14Case(e) /\ C14Type(e) /\ C14Sid(e) /\ C14Pairing(e) /\ C14Raw(e)
 
 \* ------------------------------------------------------------------ model agreement (drift only)
 AgreeDecoder(e) == e.ev \in {"rt", "dec"} =>
